@@ -15,7 +15,7 @@ from effects import locate, classify_coef
 
 CAP = 96
 # configuration conditions that are tracked (and never pruned) even when tested once: documented exceptions hang on them
-FORCE_SYM = {'sym:prm.always_reset'}
+FORCE_SYM = {'sym:prm.always_reset', 'sym:prm.type == 1', 'sym:prm.type == 2'}
 
 
 def lit_val(n):
